@@ -186,6 +186,11 @@ def startup_oracle(ep, outs):
         "start-up changes the configuration the admin API enforces (token / lists are read from it on every request): %s -> %s" % (ep[0], o)]
 
 
+def build(ctx):
+    overlay = C.make_overlay(ctx, clock_pkgs=[], harness_pkgs=["internal/adminapi"])
+    return C.go_test_build(ctx, "internal/adminapi", overlay)
+
+
 def check(ctx):
     ctx.assumptions += [
         "net.ParseIP / net.ParseCIDR / IPNet.Contains are taken as given: the model works on parsed values, the generator renders values into address strings (v4, v6 compressed/exploded, IPv4-mapped, with/without port) and a fixed set of malformed strings",
